@@ -24,7 +24,7 @@ RULE = (
     "(str, list, dict forms; files shared between classes; Media and js/css inherited from a base component class), ASCII and non-ASCII class names, "
     "classes that are registered but never rendered; page skeletons with/without <head>, <body> and each {% component_*_dependencies %} placeholder "
     "(page level, and occasionally inside component templates incl. root position); rendered under both context behaviours; document and fragment; "
-    "entry paths render_dependencies(), ComponentDependencyMiddleware (document) and Component.render(type=...) of a wrapping page component. "
+    "entry paths render_dependencies(), ComponentDependencyMiddleware (document; response status 200 / 201 / 404 / 422 / 500 as a function of the page), Component.render(type=...) of a wrapping page component and DynamicComponent.render(is=<that component>, type=...). "
     "Oracle: inline <script>/<style> bodies == js/css of the rendered classes in order of first appearance (interpreter's document-order instance list), "
     "each as often as there are insertion points of that kind (1 unless several placeholders are rendered); every Media URL of the rendered classes "
     "exactly once per insertion, nothing from unrendered classes; fragment: decoded loader JSON lists exactly component-endpoint URLs + Media tags, "
@@ -236,7 +236,9 @@ def check_program(case, col=None):
             try:
                 outs["render_dependencies/document"] = render_dependencies(raw, "document")
                 outs["render_dependencies/fragment"] = render_dependencies(raw, "fragment")
-                mw = ComponentDependencyMiddleware(get_response=lambda request: HttpResponse(raw))
+                # the status of the response is a function of the page (component-built error / "created" pages are HTML too)
+                status = (200, 200, 404, 422, 201, 500)[len(raw) % 6]
+                mw = ComponentDependencyMiddleware(get_response=lambda request: HttpResponse(raw, status=status))
                 outs["middleware/document"] = mw(None).content.decode("utf-8")
 
                 class VfPage(Component):
@@ -248,6 +250,11 @@ def check_program(case, col=None):
                 ctx = dict(prog["page"]["ctx"])
                 outs["Component.render/document"] = VfPage.render(kwargs=ctx, type="document")
                 outs["Component.render/fragment"] = VfPage.render(kwargs=ctx, type="fragment")
+                # the dynamic component as the ROOT of a Python render, `is=` naming the page component
+                from django_components.components.dynamic import DynamicComponent
+
+                outs["DynamicComponent.render/fragment"] = DynamicComponent.render(kwargs=dict(ctx, **{"is": VfPage}), type="fragment")
+                outs["DynamicComponent.render/document"] = DynamicComponent.render(kwargs=dict(ctx, **{"is": VfPage}), type="document")
             except Exception as e:  # noqa
                 fails.append(("[%s] dependency rendering raised %r (rendered classes %r)" % (mode, e, exp["order"]), "c04-exc:" + exc_bucket(e)))
                 continue
